@@ -43,6 +43,20 @@ func (w *c19World) value(setting, v string) string {
 			return a
 		case "B":
 			return b
+		case "empty":
+			return ""
+		case "bad2":
+			// a second malformed form per security-relevant setting
+			switch setting {
+			case "root":
+				return filepath.Join(w.rootA, "markerA") // exists, but is a regular file
+			case "client-whitelist":
+				return "300.1.1.1"
+			case "max-clients":
+				return "1.5"
+			case "read-timeout":
+				return "10" // a number without unit is no duration
+			}
 		}
 		return bad
 	}
@@ -300,7 +314,7 @@ func runC19(c c19Case, st *hx.Stats) error {
 	anyBad, flagVal := false, ""
 	vals := map[string]bool{}
 	for _, a := range c.Assigns {
-		if a.Value == "bad" {
+		if a.Value == "bad" || a.Value == "bad2" || a.Value == "empty" {
 			anyBad = true
 		}
 		if a.Channel == "flag" {
@@ -343,7 +357,7 @@ func runC19(c c19Case, st *hx.Stats) error {
 		if c19Security[c.Setting] || true {
 			// an invalid value must stop start-up (demanded for the security-relevant settings; others are only required not to crash)
 			if listening != "" && c19Security[c.Setting] {
-				return hx.Failf("invalid-stops-startup", "%s: malformed value %q via %v did not stop start-up: the server is listening on %s", c.Setting, w.value(c.Setting, "bad"), c.Assigns, listening)
+				return hx.Failf("invalid-stops-startup", "%s: malformed value %q via %v did not stop start-up: the server is listening on %s", c.Setting, w.value(c.Setting, c.Assigns[0].Value), c.Assigns, listening)
 			}
 			if crashed, what := b.Crashed(); crashed {
 				return hx.Failf("no-panic", "malformed configuration crashed the binary: %s", what)
@@ -427,12 +441,22 @@ func c19Cases(yield func(c19Case) bool) {
 			if !yield(c19Case{Setting: s, Assigns: []c19Assign{{ch, "bad"}}}) {
 				return
 			}
+			if !c19Security[s] {
+				continue
+			}
+			if !yield(c19Case{Setting: s, Assigns: []c19Assign{{ch, "bad2"}}}) {
+				return
+			}
+			// the empty value: no range, no number, no duration (an empty root means the working directory and is valid)
+			if s != "root" && !yield(c19Case{Setting: s, Assigns: []c19Assign{{ch, "empty"}}}) {
+				return
+			}
 		}
 	}
 }
 
 func TestC19Config(t *testing.T) {
 	st := hx.NewStats("C19", "config")
-	st.MarkExhaustive("9 settings x 7 channels x 2 values (single channel); all flag-vs-other pairs; malformed value per security-relevant setting per channel; other channel pairs sampled 1/3 in quick, all in thorough")
+	st.MarkExhaustive("9 settings x 7 channels x 2 values (single channel); all flag-vs-other pairs; 3 malformed forms (wrong syntax, second wrong form, empty) per security-relevant setting per channel; other channel pairs sampled 1/3 in quick, all in thorough")
 	hx.RunCases(t, st, c19Cases, runC19, hx.PropOpts{})
 }
